@@ -53,10 +53,10 @@ instance (d) : Decidable (BucketCap d) := by unfold BucketCap; infer_instance
 instance (self d) : Decidable (BucketPlace self d) := by unfold BucketPlace; infer_instance
 instance (d) : Decidable (SingleEntry d) := by unfold SingleEntry; infer_instance
 
-structure Shape (self : Nat) (d : Dump) : Prop where
-  selfNotHeld : SelfNotHeld self d
+structure Shape (own : Nat) (d : Dump) : Prop where
+  selfNotHeld : SelfNotHeld own d
   bucketCap : BucketCap d
-  bucketPlace : BucketPlace self d
+  bucketPlace : BucketPlace own d
   singleEntry : SingleEntry d
 
 /-! ### newest address and expiry -/
